@@ -70,17 +70,7 @@ theorem inv_bit (b : Bits) (hb : b.WF) (i : Nat) :
   · simp [hi, wf_testBit hb (Nat.le_of_not_lt hi)]
 
 /-- `~b` as a value: `2^n - 1 - b` -/
-theorem inv_val (b : Bits) (hb : b.WF) : b.inv.ival = 2 ^ b.size - 1 - b.ival := by
-  apply Nat.eq_of_testBit_eq
-  intro i
-  rw [(inv_bit b hb i).2]
-  have h : b.ival ≤ 2 ^ b.size - 1 := Nat.le_sub_one_of_lt hb
-  by_cases hi : i < b.size
-  · have := Nat.testBit_two_pow_sub_succ hb i
-    simp only [hi, decide_true, Bool.true_and] at this ⊢
-    rw [← this]; congr 1; omega
-  · have hlt : 2 ^ b.size - 1 - b.ival < 2 ^ b.size := by have := Nat.two_pow_pos b.size; omega
-    simp [hi, testBit_of_lt hlt (Nat.le_of_not_lt hi)]
+theorem inv_val (b : Bits) (hb : b.WF) : b.inv.ival = 2 ^ b.size - 1 - b.ival := xor_mask b hb
 
 /-- unary minus: computed in the operand's size, value `(-b) mod 2^n` -/
 theorem neg_spec (b : Bits) :
